@@ -27,12 +27,14 @@ def entry_points(ci, include_private=(), exclude=()):
     return [seen[k] for k in sorted(seen)]
 
 
-def coherence(ctx, rule, ci, edges, entries=None, pseudo=None, extra=None, param_alias=None, equal_atoms=(), rel=None, type_assumptions=None, nonnull_methods=(), assume=None, mutating_calls=None, init_ver=None, note_entries=(), max_report_paths=3):
+def coherence(ctx, rule, ci, edges, entries=None, pseudo=None, extra=None, param_alias=None, equal_atoms=(), rel=None, type_assumptions=None, nonnull_methods=(), assume=None, mutating_calls=None, init_ver=None, note_entries=(), max_report_paths=3, raise_exits=False, field_types=None):
     """Check every normal-exit path of every entry point against the dependency edges.
 
     param_alias: {param name: field}  a value computed from that parameter counts as computed from the field
                  at version 'param:<name>' (e.g. Fourier.update computes delta_k from `model` before storing it).
     equal_atoms: substrings of atom keys that, when decided True, assert the parameter equals the stored field.
+    raise_exits: also check the paths that leave through `raise` AFTER having written a source field: an update that is rejected half-way
+                 must not leave the object with a new source and an old derived field (the caller may catch the exception and go on).
     """
     prog = ctx.prog
     rel = rel or ci.module.relpath
@@ -40,6 +42,7 @@ def coherence(ctx, rule, ci, edges, entries=None, pseudo=None, extra=None, param
     ex.type_assumptions = dict(type_assumptions or {})
     ex.nonnull_methods = set(nonnull_methods)
     ex.mutating_calls = dict(mutating_calls or {})
+    ex.field_types = dict(field_types or {})
     entries = entries if entries is not None else entry_points(ci, exclude=("__init__",))
     param_alias = param_alias or {}
     total_paths = 0
@@ -48,10 +51,13 @@ def coherence(ctx, rule, ci, edges, entries=None, pseudo=None, extra=None, param
     for qual, fn, owner in entries:
         res = ex.explore(fn, qual, assume=assume, init_ver=init_ver)
         normal = [p for p, k in res if k == "normal"]
+        raised = [p for p, k in res if k == "raise"] if raise_exits else []
+        for p in raised:
+            p._raised_exit = True
         total_paths += len(res)
         site = "%s::%s" % (rel, qual)
         bad_here = set()
-        for p in normal:
+        for p in normal + raised:
             for ev in p.events:
                 if ev[0] == "write":
                     fields_written.add(ev[1])
@@ -85,9 +91,13 @@ def coherence(ctx, rule, ci, edges, entries=None, pseudo=None, extra=None, param
                     # the write statement of the source (last one)
                     wr = [ev for ev in p.events if ev[0] == "write" and ev[1] == e.source]
                     wtext = wr[-1][3] if wr else "?"
-                    key = (qual, e.derived, e.source, wtext)
+                    if getattr(p, "_raised_exit", False) and not wr:
+                        continue  # the source was not written by this call (changed by the caller beforehand): a rejected refresh leaves things as they were
+                    key = (qual, e.derived, e.source, wtext + (" @raise" if getattr(p, "_raised_exit", False) else ""))
                     found.setdefault(key, []).append(p)
                     bad_here.add((e.derived, e.source))
+            if getattr(p, "_raised_exit", False):
+                continue
             # a derived field computed from a parameter while the aliased source keeps its old value and the path
             # does not establish equality -> stale w.r.t. the stored source
             for e in edges:
@@ -111,7 +121,9 @@ def coherence(ctx, rule, ci, edges, entries=None, pseudo=None, extra=None, param
         for p in ps[:max_report_paths]:
             ex_paths.append(paths.describe(p))
         e = [x for x in edges if x.derived == d and x.source == s][0]
-        msg = "%s is left stale: %s is written (`%s`) and %s is not recomputed from it before a normal exit on %d path(s); e.g. [%s]" % (d, s, wtext[:70], d, len(ps), ex_paths[0])
+        exc = wtext.endswith(" @raise")
+        msg = "%s is left stale: %s is written (`%s`) and %s is not recomputed from it before %s on %d path(s); e.g. [%s]" % (
+            d, s, wtext[:70], d, "the method raises (the object stays usable with a new source and an old derived field)" if exc else "a normal exit", len(ps), ex_paths[0])
         if e.note_only or qual in note_entries:
             ctx.note(rule, "%s::%s: %s (%s)" % (rel, qual, msg, e.reason))
         else:
